@@ -7,7 +7,7 @@ container object refers to its private item list and to one value list per key; 
 place or rebind a reference to a freshly built list; `copy()` builds every list anew from the pairs.
 
 Theorems (for every heap, every container, every history of `append` / `__setitem__` / `__delitem__` /
-`pop()` on either side, unbounded):
+`pop()` / `extend(pairs)` / `update(pairs)` / `clear()` / `discard(key)` on either side, unbounded):
 
 * `C11_copy_equal_intact`: the copy shows the same pairs, and making it leaves the original's pair list
   and every one of its value lists as they were;
@@ -73,6 +73,29 @@ theorem popLast_keeps_item_list (h : Heap) (c : Cont) : (popLast h c).2.items = 
     split
     · split <;> rfl
     · rfl
+
+def h0' : Heap := ⟨fun i => if i = 0 then [(1, 5), (2, 4), (1, 3)] else [], 1,
+  fun i => if i = 0 then [5, 3] else if i = 1 then [4] else [], 2⟩
+def c0' : Cont := ⟨0, [(1, 0), (2, 1)]⟩
+
+theorem extend_keeps_item_list (ps : List (K × V)) : ∀ (h : Heap) (c : Cont),
+    (appendAll h c ps).2.items = c.items := by
+  induction ps with
+  | nil => intro h c; rfl
+  | cons p r ih =>
+    intro h c
+    obtain ⟨k, v⟩ := p
+    simp only [appendAll]
+    rw [ih, append_keeps_item_list]
+
+theorem clear_rebinds_item_list (h : Heap) (c : Cont) : (clear h c).2.items = h.iNext ∧ (clear h c).2.dict = [] :=
+  ⟨rfl, rfl⟩
+
+/-- a history that uses every operation of the alphabet, on the copy: the original is untouched
+    (an instance of `C11_independent`, evaluated) -/
+example : let (h1, c1) := copy h0' c0'
+    view (run h1 c1 [.extend [(1, 6), (2, 7)], .update [(1, 8), (3, 9)], .discard 2, .discard 4, .popLast,
+      .append 5 5, .setitem 5 6, .delitem 1, .clear]).1 c0' = view h0' c0' := by decide
 
 /-- a heap with one container holding the pair (1, 5) -/
 def h0 : Heap := ⟨fun i => if i = 0 then [(1, 5)] else [], 1, fun i => if i = 0 then [5] else [], 1⟩
